@@ -65,21 +65,18 @@ Definition C16_fail_atlas_r21 := C16_fail B_atlas_r21 Runner_atlas_r21.script wo
 Definition C16_ok_atlas_r21 := C16_ok B_atlas_r21 Runner_atlas_r21.script world_atlas_r21 (proj1 C16_runner_atlas_r21).
 Definition C16_nonzero_unchanged_atlas_r21 := C16_nonzero_unchanged B_atlas_r21 Runner_atlas_r21.script world_atlas_r21 (proj1 C16_runner_atlas_r21).
 Definition C16_histories_partial_atlas_r21 := C16_histories_partial B_atlas_r21 Runner_atlas_r21.script fresh_atlas_r21 built_atlas_r21 (proj1 C16_runner_atlas_r21).
-Check C16_fail_atlas_r21. Check C16_ok_atlas_r21.
 Definition C16_flags_cms_r5 := C16_flags B_cms_r5 Runner_cms_r5.script world_cms_r5 (proj1 C16_runner_cms_r5).
 Definition C16_phases_cms_r5 := C16_phases B_cms_r5 Runner_cms_r5.script world_cms_r5 (proj1 C16_runner_cms_r5).
 Definition C16_fail_cms_r5 := C16_fail B_cms_r5 Runner_cms_r5.script world_cms_r5 (proj1 C16_runner_cms_r5).
 Definition C16_ok_cms_r5 := C16_ok B_cms_r5 Runner_cms_r5.script world_cms_r5 (proj1 C16_runner_cms_r5).
 Definition C16_nonzero_unchanged_cms_r5 := C16_nonzero_unchanged B_cms_r5 Runner_cms_r5.script world_cms_r5 (proj1 C16_runner_cms_r5).
 Definition C16_histories_partial_cms_r5 := C16_histories_partial B_cms_r5 Runner_cms_r5.script fresh_cms_r5 built_cms_r5 (proj1 C16_runner_cms_r5).
-Check C16_fail_cms_r5. Check C16_ok_cms_r5.
 Definition C16_flags_cms_r7 := C16_flags B_cms_r7 Runner_cms_r7.script world_cms_r7 (proj1 C16_runner_cms_r7).
 Definition C16_phases_cms_r7 := C16_phases B_cms_r7 Runner_cms_r7.script world_cms_r7 (proj1 C16_runner_cms_r7).
 Definition C16_fail_cms_r7 := C16_fail B_cms_r7 Runner_cms_r7.script world_cms_r7 (proj1 C16_runner_cms_r7).
 Definition C16_ok_cms_r7 := C16_ok B_cms_r7 Runner_cms_r7.script world_cms_r7 (proj1 C16_runner_cms_r7).
 Definition C16_nonzero_unchanged_cms_r7 := C16_nonzero_unchanged B_cms_r7 Runner_cms_r7.script world_cms_r7 (proj1 C16_runner_cms_r7).
 Definition C16_histories_partial_cms_r7 := C16_histories_partial B_cms_r7 Runner_cms_r7.script fresh_cms_r7 built_cms_r7 (proj1 C16_runner_cms_r7).
-Check C16_fail_cms_r7. Check C16_ok_cms_r7.
 
 (* ---------- non-vacuity ---------- *)
 Example C16_ex_classify :
